@@ -24,8 +24,11 @@ import (
 
 const probePath = "/zprobe.jet"
 const leavePath = "/zleave.jet"
+const swallowPath = "/zswallow.jet"
 
 var rePtrMethod = regexp.MustCompile(`<ptrmethod:[a-z]*:([^>]*)>`)
+
+var reUnexp = regexp.MustCompile(`<unexp:([^>]*)>`)
 
 var reInner = regexp.MustCompile(`<inner:([^>]*)>`)
 
@@ -57,6 +60,8 @@ func stateProbeSource(w *gen.World) string {
 	// a pointer-receiver method: asked for on a value that is not addressable first (isset says what it
 	// says), then called through a pointer - which must work whatever the first lookup found
 	b.WriteString("<ptrmethod:{{isset(item.PtrName)}}:{{try}}{{item.Sub.PtrName()}}{{catch}}FAILED{{end}}>")
+	// an unexported field, asked for twice: it is an error both times, whatever the first lookup left behind
+	b.WriteString("<unexp:{{try}}{{item.secret}}{{catch}}FAILED{{end}}|{{try}}{{item.secret}}{{catch}}FAILED{{end}}|{{try}}{{item.Sub.secret}}{{catch}}FAILED{{end}}>")
 	b.WriteString("<blocks:")
 	seen := map[string]bool{}
 	for _, bi := range w.Blocks {
@@ -103,6 +108,18 @@ func RunC10(env *sim.Env) {
 	world := gen.GenWorld(t, opts)
 	world.Files[leavePath] = `{{range root.Three}}{{return "left"}}{{end}}{{range i, v := names}}{{return v}}{{end}}`
 	world.Files[probePath] = stateProbeSource(world)
+	// an execution that SUCCEEDS although something failed on the way: isset() swallows the failure of an
+	// exec'd template, raised in a block body after it yielded its content (below an include). The
+	// constructs the failure unwound have not restored anything; Execute returns nil all the same.
+	swVariant := t.Choose(3)
+	world.Files["/zsw_card.jet"] = `{{block zcard(title="")}}{{zin := title}}{{yield content}}{{undefinedName}}{{end}}`
+	world.Files["/zsw_inner.jet"] = `{{zq := "swallowed"}}{{yield zcard(title="t") content}}LEAKED-CONTENT{{end}}`
+	world.Files["/zsw_page.jet"] = `{{import "/zsw_card.jet"}}{{include "/zsw_inner.jet"}}`
+	world.Files[swallowPath] = []string{
+		`{{isset(exec("/zsw_page.jet").x) ? "set" : "unset"}}`,
+		`{{if isset(exec("/zsw_page.jet")[0])}}set{{else}}unset{{end}}<after>`,
+		`{{range ints(0, 2)}}{{isset(exec("/zsw_page.jet").x)}}{{end}}`,
+	}[swVariant]
 	world.Order = append(world.Order, probePath)
 	data := gen.GenData(t, 1)
 	data2 := gen.GenData(t, 2)
@@ -179,6 +196,9 @@ func RunC10(env *sim.Env) {
 		}
 		if m := reInner.FindStringSubmatch(o.Out); m != nil && m[1] != "embedded|only" {
 			env.Violate("alone-run-equality", "residue:embedded-struct-fields-resolve-wrongly", "call %q renders %s: the fields of the embedded struct hold \"embedded\" and \"only\" - what they resolve to depends on which struct type the process resolved first\nhistory: %s", call.String(), sim.Q(m[0]), strings.Join(hist[max(0, len(hist)-4):], " ; "))
+		}
+		if m := reUnexp.FindStringSubmatch(o.Out); m != nil && m[1] != "FAILED|FAILED|FAILED" {
+			env.Violate("alone-run-equality", "residue:unexported-field-rendered", "call %q renders %s: an unexported field is an error every time it is asked for; here the answer depends on an earlier lookup of the same name\nhistory: %s", call.String(), sim.Q(m[0]), strings.Join(hist[max(0, len(hist)-4):], " ; "))
 		}
 		if m := rePtrMethod.FindStringSubmatch(o.Out); m != nil && m[1] != "P:sub" {
 			env.Violate("alone-run-equality", "residue:pointer-method-lost", "call %q renders %s: the pointer-receiver method PtrName of the *Item holds \"P:sub\"; what a method name resolves to depends on how the process looked it up first\nhistory: %s", call.String(), sim.Q(m[0]), strings.Join(hist[max(0, len(hist)-4):], " ; "))
@@ -314,6 +334,13 @@ func RunC10(env *sim.Env) {
 		// fault-free first (residue after successful executions)
 		exec(Call{Tmpl: m, Data: d, NilVars: nilVars})
 		doFlood()
+		if fi == 0 {
+			for _, follow := range targets {
+				exec(Call{Tmpl: swallowPath, Data: d, NilVars: nilVars})
+				exec(Call{Tmpl: follow, Data: data2, NilVars: nilVars})
+			}
+			env.Stat("probe:successful_execution_that_swallowed_a_failure_below_a_yield", 1)
+		}
 		for _, f := range fps {
 			for _, follow := range targets {
 				before := pools.RtReusedAfterFail
